@@ -204,6 +204,43 @@ def _norm_key(k):
     return k
 
 
+def _silent_drop_atoms(fx, nid, elem_expr, seen_atom, f, loop=None):
+    """guard atoms on an enqueue, other than first-visit tests, that mention the enqueued element and whose
+    failing branch silently continues (does not leave the function)"""
+    cfg = fx.cfg
+    en = names_in(elem_expr)
+    lab_of = {t: lab for (t, lab, _) in cfg.guards(nid)}
+    out = []
+    for a in fx.guard_atoms(nid):
+        t = a[-1]
+        if seen_atom is not None and a[:4] == seen_atom[:4]:
+            continue
+        if a[0] == 'or':
+            continue
+        if a[0] == 'in' and a[3] is False and loop is not None and _marker_updates(loop, a[2]):
+            continue      # a second first-visit marker
+        if not (FuncFactsNames(a) & en):
+            continue
+        tn = cfg.node[t]
+        if tn.kind != 'test' or t not in lab_of:
+            continue
+        exits = True
+        for (s2, lab) in cfg.succ[t]:
+            if lab not in (True, False) or lab == lab_of[t]:
+                continue
+            st = cfg.node[s2].stmt
+            if not isinstance(st, (ast.Return, ast.Raise)):
+                exits = False
+        if not exits:
+            out.append(a)
+    return out
+
+
+def FuncFactsNames(a):
+    from ..astutil import FuncFacts
+    return FuncFacts._atom_names(a)
+
+
 def check_search_loop(ctx, rep, wl: WLoop):
     f, loop = wl.f, wl.loop
     fx = ctx.facts(f)
@@ -256,7 +293,15 @@ def check_search_loop(ctx, rep, wl: WLoop):
                 rep.violates(RULE + '.W2', f, st, ok[1])
             else:
                 markers.add(ok[1])
-                rep.holds(RULE + '.W2', f, st, 'enqueue dominated by `{} not in {}` and {} is updated with the same key'.format(ok[2], ok[1], ok[1]))
+                seen_test = [a for a in atoms if (a[0] == 'in' and a[2] == ok[1]) or (a[0] == 'truthy' and a[1].startswith(ok[1] + '['))]
+                drops = _silent_drop_atoms(fx, nid, expr, seen_test[0] if seen_test else None, f, loop)
+                drops = [d for d in drops if not (d[0] == 'in' and d[2] in markers)]
+                if drops:
+                    d = drops[0]
+                    rep.violates(RULE + '.W2', f, st, 'besides the first-visit test the enqueue of {} depends on a further condition on the successor ({} {}), whose failure silently drops an unseen element: reachable elements can be missed'.format(
+                        u(expr), d[0], d[1]))
+                else:
+                    rep.holds(RULE + '.W2', f, st, 'enqueue dominated by `{} not in {}` and {} is updated with the same key'.format(ok[2], ok[1], ok[1]))
         else:
             # difference form: E = succ - seen ; seen = seen | E ; wl = wl | E
             ok = False
@@ -489,7 +534,12 @@ def check_level_search(ctx, rep, f):
             rep.violates(RULE + '.W2', f, st, 'first-visit guard `{} in {}` has positive polarity'.format(x, a[2]))
             continue
         ups = [m for m in _marker_updates(loop, a[2]) if m[1] == x]
-        if ups:
+        drops = _silent_drop_atoms(fx, cfg.n_of(st), st.value.args[0], a, f, loop)
+        if ups and drops:
+            d = drops[0]
+            rep.violates(RULE + '.W2', f, st, 'besides the first-visit test the frontier addition of {} depends on a further condition on the successor ({} {} {}), whose failure silently drops an unseen state: reachable states are missed'.format(
+                x, d[1], '==' if d[0] == 'eq' and d[3] else ('!=' if d[0] == 'eq' else d[0]), d[2]))
+        elif ups:
             rep.holds(RULE + '.W2', f, st, 'frontier addition dominated by `{} not in {}` with marking'.format(x, a[2]))
         else:
             rep.violates(RULE + '.W2', f, st, '{} is tested but never updated with {}'.format(a[2], x))
